@@ -5,7 +5,7 @@ from props import _writer as W
 PID = "C27"
 PROPS_FILE = "Props/C27.v"
 PREFIX = "C27"
-KNOWN = {1: "C27-second-blocked-write-error", 2: "C27-depth-zero-unbounded"}
+KNOWN = {1: "C27-second-blocked-write-error"}
 RULE = ("a case is one simulator scenario: a KEEP_LAST(d) data writer (reliable, sometimes best-effort) matched with a "
         "reliable KEEP_ALL reader (sometimes a second reliable or best-effort reader), then bursts of writes to one and "
         "several instances interleaved with datagram delivery, time advances and fault rules that drop or hold the "
@@ -111,7 +111,7 @@ def corpus():
         # the only reader is deleted while a write is parked: nobody is left to wait for, the write completes
         hdr + "W 0 0 rel=1 hist=1 mbt=200000000 dur=1 ; R 0 0 rel=1 ; net ; ms 0 ; fault drop ACKNACK -1 -1 -1 ; "
               "w 0 1 10 ; w 0 1 10 ; net ; delR 0 ; net ; adv 10000000 ; w 0 1 10 ; adv 300000000",
-        # KEEP_LAST(0) is accepted by the QoS validation and never replaces anything (finding C27-depth-zero-unbounded)
+        # regression, fixed finding C27-depth-zero-unbounded (97407f5): KEEP_LAST(0) is an inconsistent QoS, the writer is not created
         hdr + "W 0 0 rel=1 hist=-1 mbt=100000000 dur=1 ; R 0 0 rel=1 ; net ; ms 0 ; w 0 1 10 ; w 0 1 10 ; w 0 1 10 ; net" + end,
     ]
 
@@ -145,13 +145,13 @@ MANIFEST = {
              "sample slot, process_pending_write_samples, check_pending_writer_sample_timeout, the acknowledgement state of the "
              "reader proxies): in every step of every event sequence a change leaves the history through KEEP_LAST replacement "
              "only if all matched reliable reader proxies have acknowledged it; an instance never holds more than depth samples "
-             "(depth >= 1); a write answered Timeout stores nothing and is answered exactly at its expiration; a parked write is "
+             "(a writer can only be created with depth >= 1); a write answered Timeout stores nothing and is answered exactly at its expiration; a parked write is "
              "written as soon as the acknowledgement arrives. The model is tied to the code by whole-stack simulator scenarios "
              "that drop or hold ACKNACKs while bursts of writes are issued; every reply, completion time and the final history "
              "are compared with the model inside Coq, and the oracle checks on the real run that exactly the writes answered Ok "
              "reach the reliable reader."),
     "note": ("Trusted: Coq kernel + vm_compute; hand model WriterModel.v; simulator harness and scenario translator. Axioms: "
-             "none. Known findings: C27-second-blocked-write-error (a second write that must wait is answered Error, not parked), "
-             "C27-depth-zero-unbounded (KEEP_LAST(0) passes validation and is unbounded)."),
+             "none. Known finding: C27-second-blocked-write-error (a second write that must wait is answered Error, not parked). "
+             "Fixed in /repo: C27-depth-zero-unbounded (97407f5, KEEP_LAST(0) is now an inconsistent QoS; regression case kept)."),
     "technique": "Coq proof (one-step invariants over all event sequences) + simulator-driven differential correspondence with oracle evaluated in Coq",
 }
